@@ -93,6 +93,9 @@ impl Runtime {
 
         let proc = Process::new(&proc_id, self);
         proc.load(&w)?;
+        // the process is known from now on, a second start with the same id is refused
+        // even before the launch has run
+        self.cache.push_proc(&proc);
         self.launch(&proc);
 
         Ok(proc)
